@@ -154,4 +154,4 @@ def run(ctx, rep):
     # ---- C13.panic ---------------------------------------------------------------------------------------
     auditlib.panic_audit(ctx, rep, "C13", ["G_enc", "G_mw"], floor_sites=250)
     from rules import C10
-    C10.run(ctx, SubReport(rep, "C10", "C13.upd", only=r"^C10\.(validate|rewind|copy|open)$"))
+    compose(ctx, rep, "C10", "C13.upd", r"^C10\.(validate|rewind|copy|open)$")
